@@ -5,16 +5,28 @@ V='/verif'
 props=[json.loads(l) for l in open(V+'/properties.jsonl')]
 TECH="contract-based deductive verification: contracts in //@ comments, VCs generated from go/ssa by govc, discharged by z3/cvc5"
 TEXT={
- 'C01':"Contracts on the literal encoding (IntToLit, Lit.Int, Negation, Var) and other functions listed in claims/C01.json, discharged for all inputs. The CDCL search loop itself is not under contract (see evidence assumptions).",
- 'C02':"Every public constraint constructor under contract is proved equivalent, for an arbitrary ghost assignment, to the arithmetic reading of what the caller wrote (GtEq/LtEq/AtMost/AtLeast/...: weights of either sign, zero weights, unit weights); unbounded in constraint length and coefficient values.",
- 'C08':"Soundness of the certificate checker as discharged contracts: (*Problem).unsat (RUP test), unsat(pb, clause), Unsat, UnsatChan (every accepted line is a consequence of the problem for every assignment; accepted empty line refutes; problem restored), parseClause, initTagged. Unbounded in problem and certificate size.",
- 'C14':"Soundness of each cutting-planes inference rule under contract (clash, divideBy, roundToOne and others in claims/C14.json): whatever the rule derives is implied by its premises for every assignment. The search loop using the rules is not under contract.",
+ 'C01':"Proof, for all inputs, of the pieces of the CNF pipeline that are under contract (claims/C01.json): the literal / variable encoding and its inverse, clause flag bits, literal removal and swapping, model extraction (one boolean per declared variable with the sign of the saved binding), growth of the per-variable tables, and the clause structure built by the DIMACS reader (one clause per terminator holding the literals read, in order; empty clause kept). NOT decided: that the CDCL search answers Sat exactly when a model exists (search, conflict analysis and parse-time simplification are not under contract) - the evidence lists this under assumptions.",
+ 'C02':"Every public constraint constructor under contract is proved equivalent, for an arbitrary ghost assignment, to the arithmetic reading of what the caller wrote (GtEq/LtEq/Eq/AtMost/AtLeast/AtMost1, PropClause, NewPBClause: weights of either sign, zero weights, unit weights, trivially true/false constraints); unbounded in constraint length and coefficient values. The search that decides the conjunction is not under contract.",
+ 'C03':"Optimal and Minimize are proved, relative to the trusted contract of Solve and the assumed semantic clauses of AppendClause: the reported cost is the cost of the returned model, delivered costs strictly decrease, and when the loop ends no model of the original constraints is cheaper (semantic loop invariant over all assignments); nil and zero cost weights handled; AppendClause's normalisation is proved structurally (degree lowered by exactly the weight of removed true literals, unit rule only on unbound positive-weight literals).",
+ 'C04':"MaxSAT: for every soft constraint the relaxation built by maxsat.New is proved to be satisfied by its blocking literal alone and to mean what the user wrote when the blocking literal is false (clauses, cardinality, PB; assertion-level obligations inside New), WCNF clause lines are relaxed the same way (parseWCNFClause), and minimality of the cost is inherited from Minimize (C03). Name tables (string-keyed maps), Problem.Solve's projection and the result forwarder are not under contract.",
+ 'C05':"countCurrentModels returns 2^(number of unbound variables), addCurrentModels enumerates each completion of the unbound variables exactly once (bit j of the counter drives the j-th unbound variable) and decisionLits returns the negated decisions, one per level, without panicking on an empty trail: proved for all solver states satisfying the stated invariants. The enumeration loop around them (blocking clauses + search) is not under contract.",
+ 'C07':"MUS extraction glue in package explain: parseClause / initTagged / the tagged unit-propagation check and UnsatChan's restoration of the caller's problem are proved (units restored on every path, tags cover every clause including unit clauses). Minimality and unsatisfiability of the returned subset depend on the solver runs in between, which are trusted.",
+ 'C08':"Soundness of the certificate checker as discharged contracts: (*Problem).unsat (RUP test), unsat(pb, clause), Unsat, UnsatChan: every accepted line is a consequence of the problem for every assignment; an accepted empty line refutes the problem; the problem is restored. Completeness (every RUP-derivable line accepted) is not proved.",
+ 'C09':"Adding constraints to a live solver: newVar / addVarWatcherList keep every per-variable table at nbVars entries and pairwise separate; AppendClause's normalisation loop and case split are proved structurally (see C03), propagateUnits binds every listed unit or answers Unsat (a unit contradicting a top-level binding gives Unsat). The semantic equivalence with a fresh solver rests on unit propagation and the search, which are trusted / assumed (listed in the evidence).",
+ 'C10':"Assume: the previous round's assumption flags are dropped, the problem's unit constraints are re-bound, exactly the listed variables are flagged, and unless the round is refuted at once every unit constraint and every assumed literal is true at the top level; contradictory assumption lists are refuted (proved relative to trusted cleanupBindings / propagate). The search under assumptions is not under contract.",
+ 'C13':"Parsers: an OPB constraint line is proved to be stored with the meaning the format gives it (>=, =, coefficients of either sign, zero coefficients, trivially true/false, never a panic); the DIMACS reader appends exactly one clause per terminator with the literals read and never reports end-of-stream together with a number; WCNF clause lines via parseWCNFClause. The byte level (bufio, strings.Fields, strconv) is external and assumed.",
+ 'C14':"Soundness of each cutting-planes inference rule under contract (clash, divideBy, roundToOne, backtrackLevel, falsifies; claims/C14.json): whatever the rule derives is implied by its premises for every assignment, unbounded in constraint size. The search loop using the rules is not under contract.",
+ 'C15':"removeBinaries (the rewriting step of DetectAtMostOne) keeps every clause that is not scheduled for removal, in order, and removes exactly the scheduled ones: proved for all inputs. The clique detection that decides what is scheduled is not under contract.",
+ 'C16':"Frame of the conflict-analysis path (learnClause, addClauseLits, minimizeLearned), the only code that ever wrote through a package-level variable: proved to write only the solver's own buffer and heuristic tables, its arguments and freshly allocated memory. Interleavings, channels and the remaining functions are not modelled; this is a sequential frame property, not a race-freedom proof.",
+ 'C20':"Sequential part of the result-stream property for Optimal: the channel is closed exactly once on every path, nothing is sent after the close, delivered costs strictly decrease, each delivered model is a freshly allocated slice of the current iteration, the returned result is the last one delivered (ghost channel state: nsent / lastsent / closed). Independence from the consumer's speed and deadlock freedom are not decided (no interleaving semantics).",
 }
 NA_REASON={
+ 'C06':"whether each emitted clause is RUP-derivable is a property of the conflict analysis and of the whole search history (every learned clause follows from the clause database at that time): it needs the CDCL loop, propagate and learnClause under a semantic contract, which is beyond what the VC generator and solvers could discharge here; only addLearnedUnit (the binding does not depend on the Certified flag) is under contract, under C10",
  'C11':"formulas are interface-typed trees with dynamic dispatch and recursion over heap structures; outside the subset the VC generator supports (DESIGN.md section 6)",
  'C12':"same as C11: recursive heap data and existential witnesses for auxiliary variables are outside the reach of the WP generator (DESIGN.md section 6)",
  'C17':"quantifies over renderings of syntax trees as byte strings read through text/scanner; needs a string theory and a model of an external stateful scanner (DESIGN.md section 6)",
  'C18':"print/parse round trip over fmt.Sprintf/strings.Join output and strings.Fields/strconv.Atoi input is a string-level inverse pair; no string theory in the verifier (DESIGN.md section 6)",
+ 'C19':"the property is about the bytes a process writes to standard output and its exit status for files on disk (os, flag, fmt.Printf, goroutines feeding printers): none of it is expressible as a pre/postcondition over program memory in this verifier; the library functions main.go calls are covered by the other properties",
 }
 checks=[];na=[]
 for p in props:
